@@ -105,6 +105,18 @@ func DrawHistory(c *Ctx, rng *rand.Rand, o HistoryOpts) *History {
 
 	checkedGen := func() Op {
 		g := &GenSpec{Plan: planIdentity(), Canon: canon, Globals: globals}
+		if spec != nil {
+			g.Spec = spec
+			g.Expect = "ok"
+			for i := range spec.Convs {
+				if spec.Convs[i].Defect != "" {
+					g.Expect = "fail"
+				}
+			}
+			if hasPathConflict(spec) {
+				g.Expect = "fail"
+			}
+		}
 		if o.RandomOrder && rng.IntN(4) != 0 {
 			g.Plan = planAll([]string{"perm", "perm", "reverse", "rotate"}[rng.IntN(4)], 1+rng.IntN(3), rng.Uint64())
 		}
@@ -187,6 +199,7 @@ func DrawHistory(c *Ctx, rng *rand.Rand, o HistoryOpts) *History {
 			if spec.Convs[i].Kind == "interface" {
 				spec.Convs[i].OutFile = []string{"", "./moved/" + strings.ToLower(spec.Convs[i].Name) + ".go", "@cwd/moved/" + strings.ToLower(spec.Convs[i].Name) + ".go"}[rng.IntN(3)]
 				spec.Convs[i].OutPkg = ""
+				alignShared(spec, i)
 			}
 			nw := spec.Render()
 			h.Ops = append(h.Ops, editOps("ChangeLayout", cur, nw)...)
@@ -238,4 +251,15 @@ func DescribeOps(h *History) []string {
 		}
 	}
 	return out
+}
+
+// alignShared gives converter k the output:package text of a peer that selects the same
+// file (converters sharing a file must agree on the package).
+func alignShared(spec *LSpec, k int) {
+	for j := range spec.Convs {
+		if j != k && spec.Convs[j].Kind == "interface" && spec.Predict(&spec.Convs[j]).Path == spec.Predict(&spec.Convs[k]).Path {
+			spec.Convs[k].OutPkg = spec.Convs[j].OutPkg
+			return
+		}
+	}
 }
